@@ -54,7 +54,7 @@ VALID = {  # first entry is the default
     'norm_get': [None, True, False, 'star', 'call'],
     'set_norm': ['star', 'call'],
     'op_side': ['left', 'right'],
-    'op': [None, '==', 'is not', ['<', '>']],
+    'op': [None, '==', 'is not', '<'],     # + the mutable forms, see MUTABLE_KINDS
     'args_as': [None, 'pos', 'arg', 'kw', 'arg_only', 'kw_only', 'pos_maybe', 'arg_maybe', 'kw_maybe'],
 }
 INVALID = {
@@ -83,9 +83,62 @@ UNKNOWN_CALL = ['nosuchoption', 'Pars', 'pars_', 'option', 'trivia_']   # privat
 EDIT_STORE_OPTS = [o for o in OPTION_NAMES if o != 'raw']
 
 
+# ----------------------------------------------------------------------------------------------------------------------
+# option values are references (Options.tla: value = cell id, heap : id -> contents). Immutable values are their own
+# cell (id = content text, never writable); lists / AST / FST objects are *mutable cells* created afresh for every run
+# of a script from a spec, passed by reference - the same object to several calls, into the thread defaults, into blocks.
+
+class CellRef:
+    """Placeholder in a command's kwargs for the run's own object of cell `id`."""
+    __slots__ = ('id',)
+
+    def __init__(self, id_):
+        self.id = id_
+
+    def __repr__(self):
+        return f'CellRef({self.id})'
+
+
+def cell_spec(id_, option, kind, init, valid=True):
+    return {'id': id_, 'option': option, 'kind': kind, 'init': init, 'valid': valid}
+
+
+def make_cell(spec):
+    k = spec['kind']
+    if k == 'list':
+        return list(spec['init'])
+    if k == 'ast':
+        return getattr(ast, spec['init'])()
+    if k == 'fst':
+        return FST(spec['init'], 'cmpop')
+    raise AssertionError(k)
+
+
+# documented mutable forms: `op`: "FST | cmpop | type[cmpop] | str | list[str]"; a list is NOT a valid `trivia`
+MUTABLE_KINDS = {
+    'op': [('list', ['is not']), ('list', ['not in']), ('list', ['>=']), ('list', ['is # c', '']), ('ast', 'IsNot'),
+           ('ast', 'NotIn'), ('fst', 'is not'), ('fst', '!=')],
+}
+MUTABLE_INVALID = {'trivia': [('list', ['all'])], 'op_side': [('list', ['left'])]}
+
+
 def vrepr(v) -> str:
-    """Type-strict, ASCII rendering of an option value (True and 1 must not compare equal)."""
+    """Type-strict, ASCII, *deep* rendering of an option value (True and 1 must not compare equal; a list is rendered by
+    its contents, an FST / AST object by its source / dump)."""
+    if isinstance(v, FST):
+        try:
+            return 'FST(' + ascii(v.src) + ', ' + type(v.a).__name__ + ', root=' + str(v.is_root) + ')'
+        except Exception as e:  # noqa: BLE001
+            return 'FST(!' + type(e).__name__ + ')'
+    if isinstance(v, ast.AST):
+        return 'AST(' + ast.dump(v) + ')'
+    if isinstance(v, (list, tuple)) and any(isinstance(x, (FST, ast.AST, list)) for x in v):
+        return type(v).__name__ + '(' + ', '.join(vrepr(x) for x in v) + ')'
     return ascii(v)
+
+
+def cell_text(spec, obj) -> str:
+    return ('' if spec['valid'] else '!bad:') + vrepr(obj)
 
 
 def pairs(d) -> list:
@@ -93,18 +146,27 @@ def pairs(d) -> list:
 
 
 def snap() -> list:
-    """The calling thread's option defaults through the public accessor."""
+    """The calling thread's option defaults through the public accessor, as a deep snapshot."""
     try:
         return pairs(FST.get_options())
     except Exception as e:  # noqa: BLE001
         return [['!error', type(e).__name__]]
 
 
-def mjson(kw: dict, unknown=()) -> list:
-    """Arguments of set_options/options()/per-call **options with the documented classification of every entry."""
+def resolve(kw: dict, cells: dict) -> dict:
+    return {n: (cells[v.id] if isinstance(v, CellRef) else v) for n, v in kw.items()}
+
+
+def mjson(kw: dict, unknown=(), specs=None) -> list:
+    """Arguments of set_options/options()/per-call **options with the documented classification of every entry. `v` is
+    the cell: the content text for an immutable value, the cell id for a mutable object."""
     out = []
     for n, v in kw.items():
         known = n in DEFAULTS and n not in unknown
+        if isinstance(v, CellRef):
+            sp = (specs or {})[v.id]
+            out.append({'n': n, 'v': v.id, 'known': known, 'valid': known and sp['valid'] and sp['option'] == n})
+            continue
         valid = known and any(vrepr(v) == vrepr(x) for x in VALID[n])
         out.append({'n': n, 'v': vrepr(v) if valid or not known else '!bad:' + vrepr(v), 'known': known, 'valid': valid})
     return out
@@ -113,6 +175,8 @@ def mjson(kw: dict, unknown=()) -> list:
 def classifiable(kw: dict) -> bool:
     """Is every entry either an undocumented name or a value listed in the documented tables above?"""
     for n, v in kw.items():
+        if isinstance(v, CellRef):
+            continue
         if n in DEFAULTS and not any(vrepr(v) == vrepr(x) for x in VALID[n] + INVALID[n]):
             return False
     return True
@@ -201,6 +265,47 @@ def _p_op(o):
     return f.src
 
 
+def _p_cmp(o):
+    """Compare slices consume `op` / `op_side`: insertions with and without a dangling operator, deletions."""
+    out = []
+    for src, code, a, b in (('a < b', 'x', 1, 1), ('a < b', 'x', 2, 2), ('a < b', 'x', 0, 0), ('a < b', 'x >', 1, 1),
+                            ('a < b', '> x', 1, 1), ('a < b > c', None, 1, 2), ('a < b > c', None, 0, 1),
+                            ('a < b > c', 'x', 1, 2)):
+        f = FST(src, 'exec')
+        try:
+            f.body[0].value.put_slice(code, a, b, **o)
+            out.append(f.src)
+        except Exception as e:  # noqa: BLE001
+            out.append('!' + type(e).__name__)
+    return ';'.join(out)
+
+
+def _p_boolop(o):
+    out = []
+    for src, code, a, b in (('a and b and c', None, 1, 2), ('a and b', 'x', 1, 1), ('a or b', 'x or', 0, 0),
+                            ('a or b', 'or x', 2, 2), ('a and b and c', 'x', 0, 2)):
+        f = FST(src, 'exec')
+        try:
+            f.body[0].value.put_slice(code, a, b, **o)
+            out.append(f.src)
+        except Exception as e:  # noqa: BLE001
+            out.append('!' + type(e).__name__)
+    return ';'.join(out)
+
+
+def _p_args_put(o):
+    out = []
+    for src, code, a, b in (('def f(a, b): pass', 'c, d=1', 2, 2), ('def f(a, /, b): pass', 'c', 0, 1),
+                            ('def f(*, a): pass', 'c', 0, 0)):
+        f = FST(src, 'exec')
+        try:
+            f.body[0].args.put_slice(code, a, b, **o)
+            out.append(f.src)
+        except Exception as e:  # noqa: BLE001
+            out.append('!' + type(e).__name__)
+    return ';'.join(out)
+
+
 _RECONCILE_BANNED = ('raw', 'trivia', 'coerce', 'docstr', 'pars', 'pars_walrus', 'pars_arglike', 'norm', 'norm_self', 'norm_get')
 
 
@@ -224,10 +329,10 @@ def _p_reconcile(o):
 PROBES = [('pars', _p_pars), ('trivia', _p_trivia), ('norm', _p_norm), ('pep8space', _p_pep8), ('elif_', _p_elif),
           ('pars_walrus', _p_walrus), ('pars_arglike', _p_arglike), ('docstr', _p_docstr), ('op_side', _p_opside),
           ('promote', _p_promote), ('coerce', _p_coerce), ('raw', _p_raw), ('args_as', _p_args_as), ('op', _p_op),
-          ('reconcile', _p_reconcile)]
+          ('reconcile', _p_reconcile), ('cmp', _p_cmp), ('boolop', _p_boolop), ('args_put', _p_args_put)]
 PROBE_FOR = {'pars': [0, 5, 6], 'trivia': [1], 'norm': [2], 'norm_self': [2], 'norm_get': [2], 'set_norm': [2],
-             'pep8space': [3], 'elif_': [4], 'pars_walrus': [5], 'pars_arglike': [6], 'docstr': [7], 'op_side': [8],
-             'promote': [9], 'coerce': [10], 'raw': [11], 'args_as': [12], 'op': [13]}
+             'pep8space': [3], 'elif_': [4], 'pars_walrus': [5], 'pars_arglike': [6], 'docstr': [7],
+             'promote': [9], 'coerce': [10], 'raw': [11], 'args_as': [12, 17], 'op': [13, 15], 'op_side': [8, 15, 16]}
 
 
 def probe(idxs, overlay: dict) -> str:
@@ -524,11 +629,14 @@ class QueueChan:
         self.rep.put(r)
 
 
-def interpret(ch, tid, srcs=(), reglog=None, counter=None):
+def interpret(ch, tid, srcs=(), reglog=None, counter=None, cellspecs=()):
     """Run commands from `ch` in the calling thread until 'die'. Every command yields exactly one reply."""
     _TL.tid = tid
     env = Env(srcs)
     seq = counter or itertools.count()
+    specs = {sp['id']: sp for sp in cellspecs}
+    cells = {i: make_cell(sp) for i, sp in specs.items()}   # this run's own mutable option objects
+    REPS = 3
 
     def reply(c, r):
         r['k'] = c['k']
@@ -540,6 +648,7 @@ def interpret(ch, tid, srcs=(), reglog=None, counter=None):
 
     def fin(r):
         r['obs'] = snap()
+        r['heap'] = [[i, cell_text(specs[i], cells[i])] for i in sorted(cells)]   # deep snapshot of every cell
         if reglog is not None:
             r['reg'] = reglog.since(tid, r.pop('rmark'))
         else:
@@ -553,16 +662,18 @@ def interpret(ch, tid, srcs=(), reglog=None, counter=None):
         r.update(outcome='ok', exc='', ret=[], eff=[], res='')
         try:
             if k == 'set':
-                r['ret'] = pairs(FST.set_options(**c['kw']))
+                r['ret'] = pairs(FST.set_options(**resolve(c['kw'], cells)))
             elif k == 'call':
-                ov = c['kw']
+                ov = resolve(c['kw'], cells)
                 r['eff'] = [[n, vrepr(FST.get_option(n, ov))] for n in OPTION_NAMES]
                 try:
                     FST('call_target', 'exec').body[0].copy(**ov)     # any real call validates its **options
                 except ValueError as e:
                     r.update(outcome='raise', exc=type(e).__name__, msg=scrub(str(e)))
                 else:
-                    r['res'] = probe(c['probes'], ov)
+                    # the same call, with the very same option objects, on fresh identical targets, REPS times
+                    r['reps'] = [probe(c['probes'], ov) for _ in range(REPS)]
+                    r['res'] = r['reps'][0]
             elif k == 'edit':
                 r.update(env.edit(c['tree'], c['seed']))
             elif k == 'tedit':
@@ -573,7 +684,7 @@ def interpret(ch, tid, srcs=(), reglog=None, counter=None):
                         ch.get()
                     _TL.stepper = park
                 try:
-                    tedit(root, c['node'], c['opt'], c['kw'], c['fault'])
+                    tedit(root, c['node'], c['opt'], resolve(c['kw'], cells), c['fault'])
                 finally:
                     _TL.stepper = None
                     r['res'] = tree_digest(root)
@@ -590,7 +701,7 @@ def interpret(ch, tid, srcs=(), reglog=None, counter=None):
         r.update(outcome='ok', exc='', ret=[], eff=[], res='')
         entered = False
         try:
-            with FST.options(**c['kw']) as old:
+            with FST.options(**resolve(c['kw'], cells)) as old:
                 entered = True
                 r['ret'] = pairs(dict(old))
                 reply(c, fin(r))
